@@ -52,6 +52,13 @@ mutant("C36-copy-instead-of-replace", "tsdate/prior.py",
                 os.remove(tmp_file.name)
 ''')
 
+mutant("C36-cache-name-ignores-large-sizes", "tsdate/prior.py",
+       '''            f"prior_{precalc_approximation_n}df_{provenance.__version__}.txt",
+''',
+       '''            # one file per order of magnitude is enough: tables are interpolated anyway
+            f"prior_{len(str(precalc_approximation_n))}digits_{provenance.__version__}.txt",
+''')
+
 # ---------------------------------------------------------------- C09
 mutant("C09-zip-keys-with-unordered-results", "tsdate/discrete.py",
        '''                        for key, pmf in pool.imap_unordered(
